@@ -4,6 +4,7 @@ package flyt
 
 import (
 	"context"
+	"fmt"
 	"time"
 )
 
@@ -456,4 +457,79 @@ func VH_C19_prepValue() {
 	vAssert(errA == nil && errB == nil, "option-form-vs-builder-form:prep-func")
 	vAssert(vSame(gotA, gotB), "option-form-vs-builder-form:prep-func")
 	vCover("prep-value")
+}
+
+// the documented defaults as behaviour, not as getter values: an unconfigured batch node runs every
+// item exactly once, in order, on the calling goroutine, and goes on after a failing item whatever
+// the error looks like (plain, wrapping a context error while the run's context is alive, typed
+// nil); an unconfigured plain node makes one attempt
+func VH_C19_defaultBehaviour() {
+	vUnwind(16)
+	n := vConcrete(vChoice("n", 4))
+	ctorStyle := vChoice("ctor", 2)
+	starts := make([]int, n)
+	order := make([]int, 0, n)
+	main := vThreadID()
+	form := vChoice("errForm", 4)
+	mkErr := func() error {
+		switch form {
+		case 1:
+			return fmt.Errorf("inner call: %w", context.Canceled)
+		case 2:
+			return fmt.Errorf("inner call: %w", context.DeadlineExceeded)
+		case 3:
+			return (*vError)(nil)
+		}
+		return vNewErr()
+	}
+	prep := func(ctx context.Context, s *SharedStore) ([]Result, error) { return bItems(n), nil }
+	exec := func(ctx context.Context, item Result) (Result, error) {
+		k := bIndex(item)
+		var err error
+		vMon(func() {
+			starts[k]++
+			order = append(order, k)
+			vAssert(vThreadID() == main, "default-batch-is-sequential")
+			if vNondetK[bool]("fail", k) {
+				vCover("default-batch-item-fails")
+				err = mkErr()
+			}
+		})
+		return NewResult(k), err
+	}
+	posts := 0
+	post := func(ctx context.Context, s *SharedStore, items, results []Result) (Action, error) {
+		posts++
+		return "done", nil
+	}
+	var b *BatchNodeBuilder
+	if ctorStyle == 0 {
+		b = NewBatchNode().WithPrepFunc(prep).WithExecFunc(exec).WithPostFunc(post)
+	} else {
+		vCover("default-batch-built-from-any-style-options")
+		b = NewBatchNode(
+			WithPrepFuncAny(func(ctx context.Context, s *SharedStore) (any, error) {
+				vals := make([]int, n)
+				for i := range vals {
+					vals[i] = 100 + i
+				}
+				return vals, nil
+			}),
+			WithExecFuncAny(func(ctx context.Context, item any) (any, error) {
+				r, err := exec(ctx, NewResult(item))
+				return r.Value(), err
+			}),
+			WithPostFuncAny(func(ctx context.Context, s *SharedStore, p, e any) (Action, error) { posts++; return "done", nil }))
+	}
+	_, err := Run(vNewCtx(), b, NewSharedStore())
+	if err != nil || posts != 1 {
+		return // the calling convention of post is C06's business
+	}
+	for i := 0; i < n; i++ {
+		vAssert(starts[i] == 1, "default-batch-continues-after-errors-one-attempt-per-item")
+	}
+	for i := 0; i < n; i++ {
+		vAssert(len(order) == n && order[i] == i, "default-batch-is-sequential")
+	}
+	vCover("default-behaviour")
 }
